@@ -16,7 +16,7 @@ import json
 import os
 
 from harness import keys as hk
-from harness import vcore, vscen
+from harness import vcore, vscen, vskel
 from vlib import core
 
 PROPS = ["Props/C16.v"]
@@ -118,9 +118,11 @@ def run(ctx):
     import logging
     import in_toto.verifylib  # noqa: F401  (the package configures its logger on import)
     logging.getLogger("in_toto").setLevel(logging.CRITICAL)     # 'run command differs from expected command' warnings
-    n = 1800 if ctx.thorough() else 230
+    n = 1800 if ctx.thorough() else 300
     if os.path.exists(os.path.join(core.COQ, "Props", "C16.v")):
         core.check_props(ctx, PROPS)
+    # syntactic ties regenerated from the working tree: stage order and the shape of the stage functions
+    vskel.check(ctx, ("verify", "substitute"))
     open_known = [e for e in core.load_known("C16") if e.get("status") == "open" and e.get("id") == "D16"]
 
     def each(rec, env, wd):
